@@ -415,6 +415,30 @@ def gen_xlcorpus(outdir, seed, count):
         refbodies = set(enc(f) for f in mref.funcs)
         must_dyn = [nimp + k for k, f in enumerate(m.funcs) if enc(f) not in refbodies]
         lines.append("%s.wasm %s.ref.wasm %d %d %s" % (name, name, len(bodies), len(data), ",".join(str(c) for c in must_dyn) or "-"))
+    # stress modules: thousands of functions, thousands of locals, deep nesting, very long names
+    r = random.Random(seed ^ 0x57E55)
+    def emit(name, m):
+        data = m.encode()
+        with open(os.path.join(outdir, name + ".wasm"), "wb") as f:
+            f.write(data)
+        lines.append("%s.wasm - %d %d -" % (name, len(m.funcs), len(data)))
+    m = Module(); m.memory(1)
+    for i in range(1500 + r.randrange(200)):
+        m.func([I32], [I32], [("local.get", 0), ("i32.const", i), "i32.add"], export=("e%d" % i) if i % 7 == 0 else None)
+    emit("m900", m)
+    m = Module(); m.memory(1)
+    depth = 250 + r.randrange(100)
+    body = [("block",)] * depth + [("local.get", 0), ("br_if", depth - 1)] + ["end"] * depth + [("local.get", 0)]
+    locs = [(1 + (i % 3), [I32, I64, F32, F64][i % 4]) for i in range(1200)]
+    m.func([I32], [I32], body, locals_=locs, export="deep")
+    lab = [("loop",)] + [("block",)] * 40 + [("local.get", 0), ("br_table", list(range(41)), 3)] + ["end"] * 41
+    m.func([I32], [], lab, export="labels")
+    emit("m901", m)
+    m = Module(); m.memory(1)
+    used = set()
+    for i in range(300):
+        m.func([], [I32], [("i32.const", i)], export=wild_name(r, used, 3000 + r.randrange(2000), tame=(i % 2 == 0)), nm="n%d" % i)
+    emit("m902", m)
     with open(os.path.join(outdir, "corpus.txt"), "w") as f:
         f.write("\n".join(lines) + "\n")
 
